@@ -16,7 +16,7 @@ CLAIMED = {
    technique="symbolic execution of go/ssa (concrete execution of the constructors, symbolic inputs) + SMT", design="5 C04"),
  "C18": dict(
    text="For every function in the real defaultStyleHandlers map (read from the heap after executing the css package initialiser) the handler body is executed symbolically on a free value; calls of other handlers are opaque predicates carrying the lemma 'accepts t => t has no hostile fragment' that this check establishes for them (modular over the call graph). Three helper idioms are replaced by summaries that are first proved against their real bodies: recursiveCheck = existence of a segmentation (<=3 parts, <=2 predicates), in(splitValues(v), consts) = a regular language (<=3 parts, then used for any number of parts). On every accepting path SMT decides, per hostile class (<, >, backslash, @, expression(, javascript:/data: reference, url() that is not a plain http/https reference), that the value has no such fragment; for split values the classes are distributed over the parts using lemmas the solver proves for arbitrary strings. GetDefaultHandler on an unknown property yields BaseHandler, which rejects everything.",
-   note="Trusts: A4 regex translation; regexp.ReplaceAll(v, \"\") as an uninterpreted function that neither deletes nor creates a hostile fragment; split bound K=2 (quick) / 3 (thorough) parts per level for space/slash splits (comma-separated enum lists are unbounded via the summary). Not claimed: TransformHandler (solver timeouts); FontFamilyHandler, FontHandler, BorderSideRadiusHandler, BackgroundHandler, BackgroundPositionHandler are checked in the thorough tier only. 'Belongs to the property's value space' beyond inertness is outside.",
+   note="Trusts: A4 regex translation; regexp.ReplaceAll(v, \"\") as an uninterpreted function that neither deletes nor creates a hostile fragment; split bound K=2 (quick) / 3 (thorough) parts per level for space/slash splits, K+2 for handlers that address split parts by constant index (comma-separated enum lists are unbounded via the summary); a symbolic counterexample that rests on an opaque sub-handler is made concrete by restricting accepted sub-handler arguments to words the real handlers accept. Not claimed: TransformHandler (solver timeouts); FontFamilyHandler, FontHandler, BorderSideRadiusHandler, BackgroundHandler, BackgroundPositionHandler are checked in the thorough tier only. 'Belongs to the property's value space' beyond inertness is outside.",
    technique="symbolic execution of go/ssa + SMT strings/regex (modular, lemma-validated summaries)", design="5 C18"),
 
  "C14": dict(
@@ -38,8 +38,8 @@ CLAIMED = {
    technique="symbolic execution of go/ssa with heap effect tracking + SMT path feasibility", design="5 C13"),
 
  "C10": dict(
-   text="Unit-level symbolic execution of the real sanitizeStyles with douceur's parser replaced by an arbitrary declaration list (up to 2/3 declarations with free property and value), a symbolic rule set (one symbolic property key in the element scope - explicit, element-pattern or absent - and one in the global scope; matcher lists mixing opaque handlers, symbolic enumerations and opaque patterns). SMT decides on every path that the emitted style equals the '; '-join, in order, of exactly the declarations whose lower-cased, prefix-stripped property has a matcher accepting the lower-cased, escape-decoded value, and that a parse error or an empty result removes the attribute. A second harness decides the routing in sanitizeAttrs (style rules present => style filter, else generic attribute rules).",
-   note="Trusts: A5 (douceur returns an error or an arbitrary declaration list); strings.ToLower and removeUnicode as uninterpreted symbols shared by code and oracle (removeUnicode's browser-exactness is outside the claim, see DESIGN.md); z3 5.1 / cvc5 1.0; go/ssa semantics as interpreted.",
+   text="Unit-level symbolic execution of the real sanitizeStyles with douceur's parser replaced by an arbitrary declaration list (up to 2 declarations with free property and value; the tiers differ in the matcher-list shapes), a symbolic rule set (one symbolic property key in the element scope - explicit, element-pattern or absent - and one in the global scope; matcher lists mixing opaque handlers, symbolic enumerations and opaque patterns). SMT decides on every path that the emitted style equals the '; '-join, in order, of exactly the declarations whose lower-cased, prefix-stripped property has a matcher accepting the lower-cased, escape-decoded value, and that a parse error or an empty result removes the attribute. A second harness decides the routing in sanitizeAttrs (style rules present => style filter, else generic attribute rules).",
+   note="Trusts: A5 (douceur returns an error or an arbitrary declaration list); strings.ToLower and removeUnicode as uninterpreted symbols shared by code and oracle, in the statement's order (lower-case, then decode), with ground facts from the real functions when a counterexample is made concrete (removeUnicode's browser-exactness is outside the claim, see DESIGN.md); z3 5.1 / cvc5 1.0; go/ssa semantics as interpreted.",
    technique="symbolic execution of go/ssa + SMT (unit harness with nondeterministic parser stub and symbolic style rules)", design="5 C10"),
 
  "C03": dict(
@@ -49,7 +49,7 @@ CLAIMED = {
 
  "C02": dict(
    text="Unit-level symbolic execution of the real sanitizeAttrs with symbolic element-rule and global-rule tables (symbolic keys, rule lists of every shape up to two rules with opaque value patterns) on up to 2/3 attributes with free keys and values: SMT decides on every path that each emitted attribute equals an input attribute that some applicable rule accepts (spec written from the statement, patterns judged on the decoded value). Separately: isDataAttribute executed on a free key (A1) implies the HTML standard's data-* shape; matchRegex returns rules only from matching patterns; and, on the extracted loop relation (induction), no start/self-closing tag is written with zero attributes unless the element is allowed without attributes.",
-   note="Trusts: A1 key alphabet; value patterns as uninterpreted predicates; strings.Split model bounded to 3 parts for the data-attribute check; table sizes 1 (quick) / 2 (thorough) symbolic entries per table; style and URL/link/forced attributes are the subject of C10/C03/C11/C12; z3 5.1 / cvc5 1.0; go/ssa semantics as interpreted.",
+   note="Trusts: A1 key alphabet; value patterns as uninterpreted predicates; strings.Split model bounded to 3 parts for the data-attribute check; one symbolic entry per table (both tiers; two entries with three attributes exceeds the machine's memory); style and URL/link/forced attributes are the subject of C10/C03/C11/C12; z3 5.1 / cvc5 1.0; go/ssa semantics as interpreted.",
    technique="symbolic execution of go/ssa + SMT (unit harness with symbolic policy tables; induction on the loop relation for bare elements)", design="5 C02"),
  "C07": dict(
    text="Same unit harness as C02, converse direction: whenever every input attribute is accepted by some rule of the element or global tables (any one of overlapping rules, in any list position), sanitizeAttrs returns the list unchanged and in order; matchRegex merges the rules of all matching element patterns (both map iteration orders explored). Decided per path by SMT with opaque value patterns.",
